@@ -1,0 +1,21 @@
+//go:build verif
+
+package pqueue
+
+// VerifHook, when set, is called at every schedule-control point of the
+// package: with a point name at yield points, and with point "wait" plus the
+// two channels an Acquire is about to select on (its wake-up channel and the
+// context's Done channel) right before that select.
+var VerifHook func(point string, wake <-chan struct{}, done <-chan struct{})
+
+func verifYield(point string) {
+	if h := VerifHook; h != nil {
+		h(point, nil, nil)
+	}
+}
+
+func verifWait(wake <-chan struct{}, done <-chan struct{}) {
+	if h := VerifHook; h != nil {
+		h("wait", wake, done)
+	}
+}
